@@ -8,7 +8,9 @@ ASSUMPTIONS = [
     "resources are sets of atoms (AS + IPv4 /16 + IPv6 /48 triples); rpki-rs block arithmetic is assumed to satisfy the set laws",
     "a request limit is empty or one atom set for all three families; the system harness only produces empty limits",
     "wants_update: the f64 ratio tests are restated in integer arithmetic (equivalent for |seconds| < 2^45)",
-    "sync_converges / sync_idempotent: fixed clock during the rounds, parent and child exchange messages without loss",
+    "sync_converges_partial is about the class's key-state machine (Ca/KeySync.lean) against a parent that answers every request "
+    "with a certificate for the offered resources, fixed clock; its tie to the two-aggregate exchange is the lock-step run",
+    "shrink_active_child_partial assumes a class without stale suspended entries (what F-C02-1 breaks) and a duplicate-free issued map",
     "HashMap iteration order is arbitrary: the model visits entries in insertion order, the driver compares sorted",
 ]
 
@@ -22,16 +24,23 @@ def replay(ctx, data):
 
 
 MANIFEST = {
-    "text": "Lean 4 theorems over a model of certificate issuance (issuer certificate ∩ child entitlement, limit applied, "
-            "containment checked), the issued/suspended maps with the exact insert/remove behaviour of child.rs, the shrink of "
-            "over-claiming child certificates in the command that receives a smaller certificate, wants_update and the entitlement "
-            "events, and the sync driver: issued certificates are exactly limit(issuer ∩ entitlement), no issued certificate ever "
-            "exceeds the issuing key's certificate in any history, the stale suspended entry left by unsuspension makes a later shrink "
-            "withdraw an active child's certificate (negation proved, replayed), syncs converge and a further sync emits nothing; "
-            "tied to the code by lock-step execution against an in-process krill and by the theorem predicates evaluated on the "
+    "text": "Lean 4 theorems over a model of certificate issuance (issuer certificate ∩ child entitlement, limit applied, containment "
+            "checked), the issued/suspended maps with the exact insert/remove behaviour of child.rs, shrink_overclaiming, activate_key, "
+            "wants_update, the entitlement events and the whole CertAuth command processing around them: issued certificates are exactly "
+            "limit(issuer ∩ entitlement) (issued_exact); in every state reachable by any command history no issued child certificate "
+            "exceeds the current key's certificate, and the command that receives a smaller certificate or activates a new key restores "
+            "that itself (never_overclaims, shrink_in_same_command, activation_keeps_containment); the exact effect of the shrink on a "
+            "class without stale entries (shrink_active_child_partial); the stale suspended entry left by unsuspension makes a later "
+            "shrink withdraw an active child's certificate and can leave an orphan certificate published that over-claims after the next "
+            "shrink (not_shrink_active_child, not_never_overclaims_published: concrete witnesses, replayed, F-C02-1); a converged child's "
+            "sync emits no event and changes nothing (sync_idempotent, for every state); every well-formed key state converges within two "
+            "rounds and two syncs to one key with exactly the offered resources and no open request (sync_converges_partial). Tied to "
+            "the code by lock-step execution against an in-process krill and by the theorem predicates evaluated on the "
             "implementation's own state",
-    "note": "Kernel-checked theorems are about the model. shrink_active_child is false on this tree (F-C02-1, recorded); the published "
-            "level of never_overclaims is proved for histories without unsuspension. rpki-rs resource arithmetic, real certificates "
-            "and the wall clock are outside the model.",
-    "technique": "Lean 4 proof (invariants by induction over command histories, concrete counter-example by decide) + correspondence check",
+    "note": "Kernel-checked theorems are about the model. shrink_active_child and the published level of never_overclaims are false on "
+            "this tree (F-C02-1, recorded with two replays); sync_converges is proved on the class key-state machine, not on the "
+            "two-aggregate exchange; F-C03-1 makes syncs non-idempotent under a class-name mapping (recorded). rpki-rs resource arithmetic, "
+            "real certificates and the wall clock are outside the model.",
+    "technique": "Lean 4 proof (invariants by induction over command histories, finite abstraction + decide, concrete counter-examples) "
+                 "+ correspondence check",
 }
